@@ -139,6 +139,10 @@ def _index(kind, name_i, length):
         return IndexSignature(fields=['a', 'b'], name=name)
     if kind == 3:
         return IndexSignature(fields=['-a'], name=name)
+    if kind == 5:
+        from django.db.models import F, Q
+        return IndexSignature(fields=None, name=name or 'ixe', expressions=[F('a') + F('b')],
+                              attrs={'condition': Q(c__gt=1)})
     return IndexSignature(fields=['b'], name=name, attrs={'db_tablespace': 'ts', 'include': ('a',)})
 
 
@@ -217,7 +221,7 @@ def h_eq_togethers(ut_a: int, ut_b: int, it_a: int, it_b: int, applied_a: bool,
 def h_eq_indexes(ia1: int, ia2: int, ib1: int, ib2: int, swap_a: bool, swap_b: bool) -> bool:
     """Same, Meta.indexes vary (two slots per side, optional reordering).
 
-    pre: 0 <= ia1 <= 4 and 0 <= ia2 <= 4 and 0 <= ib1 <= 4 and 0 <= ib2 <= 4
+    pre: 0 <= ia1 <= hx.bound(4, 5) and 0 <= ia2 <= hx.bound(4, 5) and 0 <= ib1 <= hx.bound(4, 5) and 0 <= ib2 <= hx.bound(4, 5)
     pre: hx.in_part(ia1, ia2)
     pre: not hx.excluded(ia1, ia2, ib1, ib2, swap_a, swap_b)
     post: _
@@ -369,7 +373,7 @@ def h_closure_field(mode: int, t_old: int, t_new: int, rel_old: int, rel_new: in
 
 
 def _closure_meta_core(ut_o, ut_n, it_o, it_n, io1, io2, in1, in2, swap_n,
-                       co1, co2, cn1, cn2, cswap_n):
+                       co1, co2, cn1, cn2, cswap_n, com_o=None, com_n=None):
     fields = lambda: [FieldSignature('a', models.IntegerField, {}),
                       FieldSignature('b', models.IntegerField, {}),
                       FieldSignature('c', models.IntegerField, {})]
@@ -377,8 +381,8 @@ def _closure_meta_core(ut_o, ut_n, it_o, it_n, io1, io2, in1, in2, swap_n,
     idx_n = _meta_lists(in1 and _index(in1, 1, 0), in2 and _index(in2, 2, 0), swap_n)
     con_o = _meta_lists(co1 and _constraint(co1, 0), co2 and _constraint(co2, 1), False)
     con_n = _meta_lists(cn1 and _constraint(cn1, 0), cn2 and _constraint(cn2, 1), cswap_n)
-    mo = _model('M', fields(), TOGETHERS[ut_o], TOGETHERS[it_o], idx_o, con_o, None)
-    mn = _model('M', fields(), TOGETHERS[ut_n], TOGETHERS[it_n], idx_n, con_n, None)
+    mo = _model('M', fields(), TOGETHERS[ut_o], TOGETHERS[it_o], idx_o, con_o, com_o)
+    mn = _model('M', fields(), TOGETHERS[ut_n], TOGETHERS[it_n], idx_n, con_n, com_n)
     try:
         return _closure([mo], [mn], False, 0)
     except SimulationFailure:
@@ -397,11 +401,29 @@ def h_closure_togethers(ut_o: int, ut_n: int, it_o: int, it_n: int) -> bool:
                                          0, 0, 0, 0, False), True)
 
 
+def h_closure_meta_mix(ut_o: int, ut_n: int, it_o: int, it_n: int, io1: int, in1: int,
+                       co1: int, cn1: int) -> bool:
+    """Hint closure when several Meta properties of one model change in the same diff
+    (unique_together, index_together, indexes, constraints together; db_table_comment cannot be
+    changed on SQLite - supported_change_meta - and stays out).
+
+    pre: 0 <= ut_o <= 1 and 0 <= ut_n <= 1 and 0 <= it_o <= 1 and 0 <= it_n <= 1
+    pre: 0 <= io1 <= 2 and 0 <= in1 <= 2 and 0 <= co1 <= 2 and 0 <= cn1 <= 2
+    pre: hx.in_part(io1, in1)
+    pre: not hx.excluded(ut_o, ut_n, it_o, it_n, io1, in1, co1, cn1)
+    post: _
+    """
+    changed = ((ut_o != ut_n) + (it_o != it_n) + (io1 != in1) + (co1 != cn1))
+    ok = _closure_meta_core(ut_o, ut_n, it_o, it_n, io1, 0, in1, 0, False,
+                            co1, 0, cn1, 0, False)
+    return hx.verdict(ok, changed >= 2)
+
+
 def h_closure_indexes(io1: int, io2: int, in1: int, in2: int, swap_n: bool,
                       co1: int, cn1: int, cn2: int, cswap_n: bool) -> bool:
     """Hint closure for Meta.indexes and Meta.constraints changes.
 
-    pre: 0 <= io1 <= 4 and 0 <= io2 <= 4 and 0 <= in1 <= 4 and 0 <= in2 <= 4
+    pre: 0 <= io1 <= 5 and 0 <= io2 <= 5 and 0 <= in1 <= 5 and 0 <= in2 <= 5
     pre: 0 <= co1 <= 2 and 0 <= cn1 <= 2 and 0 <= cn2 <= 2
     pre: (co1 == 0 and cn1 == 0 and cn2 == 0 and not cswap_n) or (io1 == 0 and io2 == 0 and in1 == 0 and in2 == 0 and not swap_n)
     pre: hx.in_part(io1, io2)
